@@ -87,6 +87,7 @@ def write_baseline(suite, src=None):
 # bounded stand-ins (labelled bounded in the evidence, never counted as proved): property -> script
 PROP_BOUNDED = {
     'C07': 'harness/c07_bounded.py',
+    'C05': 'harness/c05_bounded.py',
 }
 
 
